@@ -29,6 +29,9 @@ type harness struct {
 	r   *hx.Run
 	g   *gen
 	cfg hx.Config
+	// the shared Vulnerability / IndexRecord of the history in progress (hist.go)
+	ho    *histObjs
+	trail string
 }
 
 func enc(s string) string { return hx.Hex([]byte(s)) }
@@ -218,6 +221,29 @@ func (h *harness) exec(line string) (string, error) {
 		return string(b), err
 	}
 	switch f[0] {
+	case "reset":
+		h.begin()
+		return "ok", nil
+	case "vname":
+		s, err := str(1)
+		if err != nil {
+			return "", err
+		}
+		h.hName(s)
+		return "ok", nil
+	case "vheld", "vrec":
+		w, err := decWFN(f[1:])
+		if err != nil {
+			return "", err
+		}
+		if f[0] == "vheld" {
+			h.hHeld(w)
+		} else {
+			h.hRec(w)
+		}
+		return "ok", nil
+	case "vcall":
+		return h.hCall(), nil
 	case "validate", "wild", "split", "unbindval", "bindval", "unbindfs", "unbinduri", "unbind", "punbind", "unmarshal", "scan", "scanstr",
 		"punbindfs", "punbinduri", "mustunbind", "newvalue", "pnewvalue":
 		s, err := str(1)
@@ -501,7 +527,7 @@ func (h *harness) opInto(op string, w0 cpe.WFN, s string) (string, cpe.WFN, bool
 			err = w.UnmarshalText([]byte(s))
 		}
 		if err != nil {
-			return "err"
+			return "err " + encWFN(w) // the receiver after the failed call
 		}
 		ok = true
 		return "ok " + encWFN(w)
@@ -510,6 +536,19 @@ func (h *harness) opInto(op string, w0 cpe.WFN, s string) (string, cpe.WFN, bool
 	h.r.Count(op + ":" + strings.Fields(out)[0])
 	if out == "panic" {
 		h.r.Fail("", fmt.Sprintf("%s panics on %q", op, s))
+		return out, w, ok
+	}
+	// a rejected text leaves the receiver untouched (theorem unmarshal_error_keeps_receiver)
+	if !ok && w != w0 {
+		h.r.Fail("", fmt.Sprintf("%s(%q) fails and leaves the receiver %#v changed to %#v (op: %s %s %s)", op, s, w0, w, op, enc(s), encWFN(w0)))
+	}
+	// Scan of the same bytes behaves like Scan of the string
+	if op == "scan2" {
+		wb := w0
+		errb := wb.Scan([]byte(s))
+		if isASCII(s) && ((errb == nil) != ok || wb != w) {
+			h.r.Fail("", fmt.Sprintf("Scan([]byte(%q)) into %#v gives %v %#v, Scan of the string ok=%v %#v", s, w0, errb, wb, ok, w))
+		}
 	}
 	return out, w, ok
 }
@@ -632,7 +671,10 @@ func (h *harness) opVuln(name string, record cpe.WFN) string {
 
 // begin marks the start of one generated case: the lines up to the next
 // marker are what a failure report carries as its replayable scenario.
-func (h *harness) begin() { h.r.Op("reset", "ok", false) }
+func (h *harness) begin() {
+	h.r.Op("reset", "ok", false)
+	h.ho = nil
+}
 
 // ---- direct checks of the statement ----
 
@@ -1148,6 +1190,7 @@ func Run(cfg hx.Config) error {
 	h.replayKnown()
 	h.exhaustiveKinds()
 	h.checkNonASCII()
+	h.histories()
 	h.dictionary()
 
 	g := h.g
@@ -1195,9 +1238,11 @@ func Run(cfg hx.Config) error {
 			}
 			h.checkMarshal(w, other)
 			// text that does not unbind, into an occupied receiver
-			if i%16 == 1 {
+			if i%4 == 1 {
 				h.opInto("unmarshal2", other, g.mutate(g.strictFS()))
 				h.opInto("scan2", other, g.mutate(g.uri()))
+				h.opInto("scan2", other, g.mutate(g.strictFS()))
+				h.opInto("unmarshal2", other, g.looseFS())
 			}
 		}
 	}
